@@ -176,9 +176,6 @@ func c15Main(c *lib.Ctx) {
 			if bt.Size*int(e.Length) > 255 {
 				bad("%s: encoded size %d x %d exceeds 255", name, bt.Size, e.Length)
 			}
-			if !arr && bt.Code != 0x07 && e.Length != 1 {
-				bad("%s: scalar with length %d", name, e.Length)
-			}
 			// Constructor value.
 			if nv.IsValid() && !nv.IsNil() && nv.Elem().Type() == t {
 				got := lib.ValOf(nv.Elem().Field(e.Sindex))
